@@ -34,7 +34,7 @@ use rustc_middle::mir::{
     TerminatorKind,
 };
 use rustc_middle::mir::PlaceTy;
-use rustc_middle::ty::print::{with_crate_prefix, with_no_trimmed_paths};
+use rustc_middle::ty::print::{with_crate_prefix, with_no_trimmed_paths, with_no_visible_paths};
 use rustc_middle::ty::{self, Instance, Ty, TyCtxt, TypingEnv};
 use rustc_span::{ExpnKind, Span};
 
@@ -97,12 +97,12 @@ fn fix_crate(krate: &str, s: String) -> String {
 
 impl<'tcx> Cx<'tcx> {
     fn path(&self, def_id: DefId) -> String {
-        let s = with_no_trimmed_paths!(with_crate_prefix!(self.tcx.def_path_str(def_id)));
+        let s = with_no_trimmed_paths!(with_no_visible_paths!(with_crate_prefix!(self.tcx.def_path_str(def_id))));
         fix_crate(&self.krate, s)
     }
 
     fn ty_str(&self, ty: Ty<'tcx>) -> String {
-        let s = with_no_trimmed_paths!(with_crate_prefix!(format!("{}", ty)));
+        let s = with_no_trimmed_paths!(with_no_visible_paths!(with_crate_prefix!(format!("{}", ty))));
         fix_crate(&self.krate, s)
     }
 
@@ -299,7 +299,7 @@ impl<'tcx> Cx<'tcx> {
             Operand::Constant(c) => {
                 out.push_str("[\"k\",");
                 let ty = c.const_.ty();
-                let disp = with_no_trimmed_paths!(with_crate_prefix!(format!("{}", c.const_)));
+                let disp = with_no_trimmed_paths!(with_no_visible_paths!(with_crate_prefix!(format!("{}", c.const_))));
                 let disp = fix_crate(&self.krate, disp);
                 let disp = if disp.len() > 200 { disp.chars().take(200).collect() } else { disp };
                 jstr(out, &disp);
@@ -535,7 +535,7 @@ impl<'tcx> Cx<'tcx> {
                                 if i > 0 {
                                     out.push(',');
                                 }
-                                let s = with_no_trimmed_paths!(with_crate_prefix!(format!("{}", a)));
+                                let s = with_no_trimmed_paths!(with_no_visible_paths!(with_crate_prefix!(format!("{}", a))));
                                 let s = fix_crate(&self.krate, s);
                                 let s: String = if s.len() > 300 { s.chars().take(300).collect() } else { s };
                                 jstr(out, &s);
@@ -856,7 +856,7 @@ fn dump<'tcx>(tcx: TyCtxt<'tcx>, stage_elab: bool) {
                 out.push_str(if tcx.asyncness(did).is_async() { "true" } else { "false" });
                 out.push_str(",\"sig\":");
                 let sig = tcx.fn_sig(did).instantiate_identity().skip_norm_wip();
-                let s = with_no_trimmed_paths!(with_crate_prefix!(format!("{}", sig)));
+                let s = with_no_trimmed_paths!(with_no_visible_paths!(with_crate_prefix!(format!("{}", sig))));
                 let s = fix_crate(&krate, s);
                 let s: String = if s.len() > 600 { s.chars().take(600).collect() } else { s };
                 jstr(&mut out, &s);
